@@ -13,7 +13,7 @@ COQ_TARGETS = ["Properties/C17", "Pins/C17"]
 THEOREMS = [("PdfV.Properties.C17", n) for n in
             ["C17_marker_first_occurrence", "C17_header_no_border", "C17_locate_start", "C17_locate_xref", "C17_load_invariant",
              "C17_resolve_invariant", "C17_scan_invariant", "C17_full_statement_proved", "C17_resolve_no_panic",
-             "C17_lexer_position", "C17_parser_position", "C17_xref_at_prefix", "C17_obj_at_prefix", "C17_tables_invariant",
+             "C17_lexer_position", "C17_parser_position", "C17_xref_at_prefix", "C17_obj_at_prefix", "C17_tables_invariant", "C17_resolve_latest_prefixed",
              "C17_resolve_overflow_refuted_before_fix", "C17_scan_refuted_before_fix"]]
 ANCHORS = ["backend.rs", "xref.rs", "parse_xref.rs", "lexer/mod.rs"]
 MODES = ["xr_locate", "xr_walk", "xr_open"]
@@ -24,7 +24,9 @@ TRUSTED_BASE = ["coqc 8.16.1 kernel (vm_compute for the generated HEADER lemma a
                 "tools/oracle/xrefspec.py + pdfwriter.py + canon.py (files written with header-relative offsets, expected values)"]
 ASSUMPTIONS = ["oracle premises of C17_load/resolve/scan_invariant: the object parser reads only the slice it is given and the lexer offset "
                "(Lexer::with_offset) only labels reported file ranges: xref_at/obj_at/member/scan_slice at |p|+pos in p++f equal those at pos in f "
-               "up to shifting ranges (tested on every xr_pair case, all objects, raw stream data, trailer, scan listing)",
+               "up to shifting ranges (tested on every xr_pair case, all objects, raw stream data, trailer, scan listing); PROVED for the lexer and "
+               "the shared object-parser model (C17_lexer_position, C17_parser_position) and hence discharged for classic-table files "
+               "(C17_tables_invariant, C17_resolve_latest_prefixed); still premises for cross-reference streams, object-stream members and scan",
                "usize = u64; files shorter than 2^64 bytes"]
 RULE = ("generated multi-revision files (tables, xref streams, /Prev chains, object streams, stream objects) and the repository's sample files "
         "(unencrypted) x prefix lengths {0,1,2,1018,1019,random} x contents {random, all '%', ending in each proper prefix of the marker}; each case "
